@@ -54,6 +54,9 @@ def instStmt (e : TEnv) : TStmt → List Clause
   | .guard cl => match e.fs with
     | [] => []
     | f :: _ => [instClause { e with f := f } cl]
+  | .orElse cl => match e.fs with
+    | [] => [instClause e cl]
+    | _ :: _ => []
 
 /-- the four clauses of `xor_clauses(a, b, c)` -/
 def xorClauses (a b c : Var) : List Clause :=
